@@ -313,6 +313,7 @@ package invoices
 //@   site call InsertInvoiceHTLC: assert arg(2).ChanID == ret(FormatUint) && arg(2).HtlcID == swrap(circuitKey.HtlcID, 64) &&
 //@        arg(2).InvoiceID == swrap(s.invoice.AddIndex, 64) && arg(2).State == swrap(newHtlc.State, 16) &&
 //@        arg(2).AmountMsat == swrap(newHtlc.Amt, 64)
+//@   ensures result == nil ==> called(InsertInvoiceHTLC) && retn(InsertInvoiceHTLC, 1) == nil
 //@
 //@ func (s *sqlInvoiceUpdater) ResolveHtlc
 //@   props C15
@@ -321,6 +322,7 @@ package invoices
 //@   site call FormatUint: assert arg(0) == ret(ToUint64) && arg(1) == 10
 //@   site call UpdateInvoiceHTLC: assert arg(2).ChanID == ret(FormatUint) && arg(2).HtlcID == swrap(circuitKey.HtlcID, 64) &&
 //@        arg(2).InvoiceID == swrap(s.invoice.AddIndex, 64) && arg(2).State == swrap(state, 16)
+//@   ensures result == nil ==> called(UpdateInvoiceHTLC) && ret(UpdateInvoiceHTLC) == nil
 //@
 //@ func (s *sqlInvoiceUpdater) AddAmpHtlcPreimage
 //@   props C15
